@@ -12,6 +12,7 @@
             rate            norm of the body rate (mrad/s),
             m, lim          the four motor commands and the limit sqrt(F_max/C_T) (milli-rad/s),
             ri, imax        rate integrator and its bound (1e-6 rad),  zi, zmax  z integrator, bound,
+            alt             height of the body origin above the model's ground plane (mm),
             nan]            1 iff any plant state / controller signal is non-finite
 
    and what the property promises is the PHASE ENVELOPE below (constants from the property
@@ -62,7 +63,10 @@ Tilts(K) == { q \in QLat(K) : AngleLe60(q) /\ Primitive(q) }
 Yaws == << <<1, 0, 0, 0>>, <<1, 0, 0, 1>>, <<0, 0, 0, 1>>, <<1, 0, 0, -1>>, <<2, 0, 0, 1>>, <<1, 0, 0, -2>> >>
 IsYaw(y) == y[2] = 0 /\ y[3] = 0 /\ y # <<0, 0, 0, 0>>
 
-ICOK(c) == /\ c.mode \in Modes
+(* commanded hover positions (m): the closed loop does not depend on where in the world the set-point is --
+   one near the world origin, one tens of metres away from it in every axis; both >= 10 m above ground *)
+HoverPositions == << <<0, 0, 10>>, <<30, -20, 25>> >>
+ICOK(c) == /\ c.mode \in Modes /\ c.spi \in {0, 1}
            /\ IsYaw(c.yaw) /\ c.q0 = QMul(c.yaw, c.q)
            /\ \A i \in 1..3 : c.off[i] \in {0, 1, -1, 3, -3} /\ c.vel[i] \in {-1, 0, 1} /\ c.rate[i] \in {-1, 0, 1}
            /\ c.q # <<0, 0, 0, 0>> /\ AngleLe60(c.q)
@@ -71,6 +75,7 @@ QHash(q) == (q[1] + 4) + 9 * (q[2] + 4) + 81 * (q[3] + 4) + 729 * (q[4] + 4)
 MI(mode) == IF mode = "mellinger" THEN 0 ELSE 1
 MkICy(mode, q, n, h, mi, y) ==
     [kind |-> "ic", mode |-> mode, q |-> q, n |-> n, yaw |-> y, q0 |-> QMul(y, q),
+     spi  |-> (h + n + mi) % 2,           \* which commanded hover position (see HoverPositions)
      off  |-> OffAt((37 * h + 61 * n + 17 * mi) % 125),
      vel  |-> UnitAt((11 * h + 5 * n + 7 * mi + 3) % 27),
      rate |-> UnitAt((13 * h + 8 * n + 2 * mi + 5) % 27)]
@@ -99,6 +104,7 @@ CornerTilts == { <<3, 1, 1, 1>>, <<2, 1, 0, 0>> }
 CornerOff   == << <<3, 3, 3>>, <<-3, 3, -3>> >>
 CornerVel   == << <<1, 1, 1>>, <<-1, 1, -1>> >>
 MkCorner(mode, q, k) == [kind |-> "ic", mode |-> mode, q |-> q, n |-> 100 + k, yaw |-> Yaws[1], q0 |-> QMul(Yaws[1], q),
+                         spi |-> k - 1,
                          off |-> CornerOff[k], vel |-> CornerVel[k], rate |-> <<1, -1, 1>>]
 ICNext == /\ ic.kind = "seed"
           /\ \/ \E n \in 0..PerSeed : /\ n = 0 => ic.q \in HeadingTilts
@@ -120,7 +126,7 @@ IsInt31(v) == v \in Int /\ -2000000000 <= v /\ v <= 2000000000
 C_Type(x) == /\ x.mode \in Modes /\ x.nan \in {0, 1}
              /\ IsInt31(x.k) /\ IsInt31(x.t) /\ IsInt31(x.e) /\ IsInt31(x.ex) /\ IsInt31(x.ey) /\ IsInt31(x.ez)
              /\ IsInt31(x.sp) /\ IsInt31(x.tilt) /\ IsInt31(x.yaw) /\ IsInt31(x.rate) /\ IsInt31(x.lim)
-             /\ IsInt31(x.zi) /\ IsInt31(x.zmax)
+             /\ IsInt31(x.zi) /\ IsInt31(x.zmax) /\ IsInt31(x.alt)
              /\ x.e >= 0 /\ x.tilt >= 0 /\ x.yaw >= 0 /\ x.rate >= 0 /\ x.sp >= 0 /\ x.lim > 0
              /\ Len(x.m) = 4 /\ Len(x.ri) = 3 /\ Len(x.imax) = 3
              /\ \A i \in 1..4 : IsInt31(x.m[i])
@@ -135,6 +141,11 @@ C_Launch(c, x)  == x.k = 0 =>
                         /\ x.rate >= 0 /\ n2 <= (x.rate + 1) * (x.rate + 1)
                         /\ (x.rate <= 1 \/ (x.rate - 1) * (x.rate - 1) <= n2)
 C_NoNan(x)      == x.nan = 0
+(* the vehicle never touches the model's ground plane (alt = height of the body origin above it, mm):
+   every launch is >= 7 m above it, and "converges to the commanded hover position from the launch
+   condition" is not met by a vehicle that falls to the ground and takes off again towards a set-point
+   that the simulator's set-point dragging has meanwhile moved down with it                           *)
+C_Airborne(x)   == x.alt > 0
 C_MotorLimit(x) == \A i \in 1..4 : 0 <= x.m[i] /\ x.m[i] <= x.lim
 C_RateInt(x)    == \A i \in 1..3 : -x.imax[i] <= x.ri[i] /\ x.ri[i] <= x.imax[i]
 C_ZInt(x)       == -x.zmax <= x.zi /\ x.zi <= x.zmax
@@ -143,12 +154,12 @@ C_Yaw(x)        == x.t >= TAttMs => x.yaw <= YawMax
 C_Rate(x)       == x.t >= TAttMs => x.rate <= RateMax
 C_Pos(x)        == x.t >= TPosMs => x.e <= PosMax /\ Abs(x.ex) <= x.e + 1 /\ Abs(x.ey) <= x.e + 1 /\ Abs(x.ez) <= x.e + 1
 
-Envelope(c, x) == /\ C_Type(x) /\ C_Clock(x) /\ C_Launch(c, x) /\ C_NoNan(x) /\ C_MotorLimit(x) /\ C_RateInt(x)
+Envelope(c, x) == /\ C_Type(x) /\ C_Clock(x) /\ C_Launch(c, x) /\ C_NoNan(x) /\ C_Airborne(x) /\ C_MotorLimit(x) /\ C_RateInt(x)
                   /\ C_ZInt(x) /\ C_Tilt(x) /\ C_Yaw(x) /\ C_Rate(x) /\ C_Pos(x)
 (* name of the first failing clause (the harness maps it to a violation key) *)
 FirstFailing(c, x) ==
     IF ~C_Type(x) THEN "type" ELSE IF ~C_Clock(x) THEN "clock" ELSE IF ~C_Launch(c, x) THEN "launch"
-    ELSE IF ~C_NoNan(x) THEN "nan" ELSE IF ~C_MotorLimit(x) THEN "motor_limit"
+    ELSE IF ~C_NoNan(x) THEN "nan" ELSE IF ~C_Airborne(x) THEN "ground_contact" ELSE IF ~C_MotorLimit(x) THEN "motor_limit"
     ELSE IF ~C_RateInt(x) THEN "rate_integrator" ELSE IF ~C_ZInt(x) THEN "z_integrator"
     ELSE IF ~C_Tilt(x) THEN "attitude_settle" ELSE IF ~C_Yaw(x) THEN "yaw_settle"
     ELSE IF ~C_Rate(x) THEN "rate_settle" ELSE IF ~C_Pos(x) THEN "position_settle" ELSE "ok"
@@ -169,6 +180,7 @@ TypeOK     == Live => C_Type(obs)
 ClockOK    == Live => C_Clock(obs)
 LaunchOK   == Live => C_Launch(ic, obs)
 NoNan      == Live => C_NoNan(obs)
+Airborne   == Live => C_Airborne(obs)
 MotorLimit == Live => C_MotorLimit(obs)
 RateIntegratorBound == Live => C_RateInt(obs)
 ZIntegratorBound    == Live => C_ZInt(obs)
@@ -192,10 +204,10 @@ StaysAttSettled == [][AttSettled => AttSettled']_cvars
 MCObs(kk, md) ==
     { [k |-> kk, t |-> kk * DtMs, mode |-> md, e |-> ee, ex |-> ee, ey |-> 0, ez |-> 0, sp |-> 0,
        tilt |-> tt, yaw |-> 0, rate |-> rr, m |-> <<mm, 0, 5, 10>>, lim |-> 10, ri |-> <<0, 0, 0>>,
-       imax |-> <<0, 0, 0>>, zi |-> 0, zmax |-> 0, nan |-> nn] :
+       imax |-> <<0, 0, 0>>, zi |-> 0, zmax |-> 0, alt |-> aa, nan |-> nn] :
       ee \in {0, PosMax, PosMax + 1, 3000}, tt \in {0, TiltMax, TiltMax + 1}, rr \in {0, RateMax + 1},
-      mm \in {0, 10, 11}, nn \in {0, 1} }
-MCIC   == [kind |-> "ic", mode |-> "mellinger", q |-> <<1, 0, 0, 0>>, yaw |-> <<1, 0, 0, 1>>, q0 |-> <<1, 0, 0, 1>>,
+      mm \in {0, 10, 11}, nn \in {0, 1}, aa \in {0, 7000} }
+MCIC   == [kind |-> "ic", mode |-> "mellinger", q |-> <<1, 0, 0, 0>>, yaw |-> <<1, 0, 0, 1>>, q0 |-> <<1, 0, 0, 1>>, spi |-> 0,
            n |-> 1, off |-> <<3, 0, 0>>,
            vel |-> <<0, 0, 0>>, rate |-> <<0, 0, 0>>]
 MCInit == ic = MCIC /\ obs \in { x \in MCObs(0, ic.mode) : Envelope(ic, x) }
